@@ -1,6 +1,6 @@
 //! C03 — adding and subtracting elapsed time is exact or refused, never wrapped.
 //! Shapes H (depth-2 chains over boundary seeds x boundary durations) + S (all dates x day steps, iterators).
-use chrono::{DateTime, Days, FixedOffset, NaiveDate, NaiveDateTime, TimeDelta, TimeZone};
+use chrono::{Datelike, DateTime, Days, FixedOffset, NaiveDate, NaiveDateTime, TimeDelta, TimeZone};
 use chrono_mc::core::*;
 use chrono_mc::lattice::*;
 use chrono_mc::refcal::*;
@@ -178,6 +178,87 @@ fn siblings(acc: &mut Acc, inst: i128, d: i128, offs: &[i32]) {
             if c != ndt(target) {
                 acc.violation("NaiveDateTime::checked_add_offset", format!("NaiveDateTime({}).checked_{}_offset({})", show(inst), if neg { "sub" } else { "add" }, fo), format!("{:?}", ndt(target)), format!("{:?}", c));
             }
+        }
+    }
+}
+
+/// Day and week iterators driven from both ends in every order (all sequences of next / next_back up to length 6):
+/// whatever the order, every date handed out is a real date, two consecutive `next` results are one step apart (and
+/// two consecutive `next_back` results one step back), and the length hint is exact (compared with actually running
+/// a copy of the iterator to its end, near the upper range limit).
+fn iterator_histories(acc: &mut Acc) {
+    let mut starts: Vec<i64> = vec![MIN_DAY, MIN_DAY + 1, MIN_DAY + 8, MAX_DAY, MAX_DAY - 1, MAX_DAY - 6, MAX_DAY - 7, MAX_DAY - 8, MAX_DAY - 15, MAX_DAY - 40];
+    for y in [2022i64, 2023, 2024, 2025, 0, -1, 1] {
+        for d in [-8i64, -7, -2, -1, 0, 1, 2, 7] {
+            starts.push(days_from_civil(y, 1, 1) + d);
+        }
+        starts.push(days_from_civil(y, 3, 1));
+        starts.push(days_from_civil(y, 2, 28));
+    }
+    for &z0 in &starts {
+        for weeks in [false, true] {
+            let step: i64 = if weeks { 7 } else { 1 };
+            for len in 1..=6u32 {
+                for mask in 0..(1u32 << len) {
+                    let d0 = mk_date(z0);
+                    let mut days = d0.iter_days();
+                    let mut wks = d0.iter_weeks();
+                    let mut prev: Option<(bool, i64)> = None;
+                    let mut bad: Option<String> = None;
+                    for k in 0..len {
+                        let back = mask >> k & 1 == 1;
+                        let item = match (weeks, back) {
+                            (false, false) => days.next(),
+                            (false, true) => days.next_back(),
+                            (true, false) => wks.next(),
+                            (true, true) => wks.next_back(),
+                        };
+                        acc.transitions += 1;
+                        let Some(x) = item else {
+                            prev = None;
+                            continue;
+                        };
+                        let n = x.num_days_from_ce();
+                        if NaiveDate::from_num_days_from_ce_opt(n) != Some(x) || NaiveDate::from_ymd_opt(x.year(), x.month(), x.day()) != Some(x) {
+                            bad = Some(format!("step {} handed out {:?}, which is not a real date", k, x));
+                            break;
+                        }
+                        if let Some((pb, pn)) = prev {
+                            if pb == back && (n as i64 - pn) != if back { -step } else { step } {
+                                bad = Some(format!("step {} handed out {:?}, {} days from the previous item of the same direction", k, x, n as i64 - pn));
+                                break;
+                            }
+                        }
+                        prev = Some((back, n as i64));
+                    }
+                    if bad.is_none() && MAX_DAY - z0 <= 60 {
+                        acc.transitions += 1;
+                        let (hint, real) = if weeks { (wks.size_hint(), wks.clone().count()) } else { (days.size_hint(), days.clone().count()) };
+                        if hint != (real, Some(real)) || (if weeks { wks.len() } else { days.len() }) != real {
+                            bad = Some(format!("size_hint {:?} after the sequence, but a copy of the iterator then yields {} items", hint, real));
+                        }
+                    }
+                    if let Some(b) = bad {
+                        acc.violation(if weeks { "iter_weeks:history" } else { "iter_days:history" }, format!("NaiveDate({:?}).{}() driven by the sequence {} (0 = next, 1 = next_back, first call first)", d0, if weeks { "iter_weeks" } else { "iter_days" }, (0..len).map(|k| if mask >> k & 1 == 1 { '1' } else { '0' }).collect::<String>()), "real dates, one step apart per direction, exact length hint".into(), b);
+                    } else {
+                        acc.hit(SIB);
+                    }
+                }
+            }
+        }
+    }
+    // differences asked in alternation between operands whose year differs by 2^16 (same day of the year), by a
+    // 400-year cycle, and by one: a remembered right-hand side must not answer for another one
+    let bs: Vec<i64> = vec![days_from_civil(2024, 6, 1), days_from_civil(2024 + 65_536, 6, 1), days_from_civil(2024 - 65_536, 6, 1), days_from_civil(2424, 6, 1), days_from_civil(2025, 6, 1), days_from_civil(2023, 6, 2), days_from_civil(2024, 5, 31)];
+    let a = days_from_civil(2000, 1, 1);
+    for &i in &pair_order(bs.len()) {
+        let (x, b) = (mk_ndt(a, 3600, 5), mk_ndt(bs[i], 7200, 7));
+        let want = (a - bs[i]) as i128 * DAY_NS - 3600 * NS - 2;
+        acc.transitions += 3;
+        let got = [delta_ns(x - b), delta_ns(x.signed_duration_since(b)), -delta_ns(b - x), delta_ns(x.date() - b.date()) - 0];
+        let want_all = [want, want, want, (a - bs[i]) as i128 * DAY_NS];
+        if got != want_all {
+            acc.violation("NaiveDateTime:difference:history", format!("{:?} - {:?} [operator, signed_duration_since, reversed, dates only] after other subtractions", x, b), format!("{:?}", want_all), format!("{:?}", got));
         }
     }
 }
@@ -566,6 +647,9 @@ fn main() {
             }
             if u == 0 {
                 changing_zone(acc);
+            }
+            if u == 1 {
+                iterator_histories(acc);
             }
             date_steps(acc, z, &durs, &counts);
             iterators(acc, z, if MAX_DAY - z < 2000 { usize::MAX } else { 800 }, if z - MIN_DAY < 2000 { usize::MAX } else { 800 });
